@@ -10,6 +10,13 @@ import MidnightZK.Proofs.C02.IdsCover
 import MidnightZK.Proofs.C02.GateRows
 import MidnightZK.Proofs.C02.RowLevel
 import MidnightZK.Proofs.C02.Bridge
+import MidnightZK.Proofs.C02.Labels
+import MidnightZK.Proofs.C02.Domain
+import MidnightZK.Proofs.C02.Lagrange
+import MidnightZK.Proofs.C02.PublicInput
+import MidnightZK.Proofs.C02.GatePoly
+import MidnightZK.Model.C02.Fld
+import MidnightZK.Model.C02.CsParams
 /-!
 # C02 — the verifier enforces every constraint class; agrees with the mock checker
 
@@ -93,6 +100,46 @@ theorem mock_pinned_disagree_witness :
 
 /-- Non-vacuity of `mock_agrees`: the D2 table has usable rows. -/
 example : 0 < d2Table.n - (d2CS.blinding + 1) := by decide
+
+/-- `MockProver::verify()` is `verify_at_rows(usable_rows, usable_rows)`. -/
+theorem mock_at_usable_rows (cs : CS) (t : Table) :
+    mockOKAt cs t (usableRows cs t) (usableRows cs t) = mockOK cs t := rfl
+
+/-- **`verify_at_rows` on fewer rows is weaker than `verify`**: for every constraint system,
+assignment and every choice of gate rows / lookup-input rows among the usable rows, an assignment
+accepted by `verify()` is accepted by `verify_at_rows` (the table side of a lookup and the copy
+constraints do not depend on the chosen rows). The converse fails (`mock_at_rows_unsound_witness`):
+only `verify()` (= `assert_satisfied`) agrees with the real verifier. -/
+theorem mock_at_rows_weaker (cs : CS) (t : Table) (gr lr : List Nat)
+    (hg : ∀ r ∈ gr, r ∈ usableRows cs t) (hl : ∀ r ∈ lr, r ∈ usableRows cs t)
+    (h : mockOK cs t = true) : mockOKAt cs t gr lr = true := by
+  unfold mockOK at h
+  unfold mockOKAt
+  simp only [Bool.and_eq_true] at h ⊢
+  obtain ⟨⟨⟨h1, h2⟩, h3⟩, h4⟩ := h
+  refine ⟨⟨⟨?_, ?_⟩, ?_⟩, h4⟩
+  · unfold gatesOK at h1
+    unfold gatesOKAt
+    simp only [List.all_eq_true, List.mem_append] at h1 ⊢
+    intro g hgm r hr
+    exact h1 g hgm r (hr.elim (fun x => Or.inl (hg r x)) Or.inr)
+  · unfold trashOK at h2
+    unfold trashOKAt
+    simp only [List.all_eq_true, List.mem_append] at h2 ⊢
+    intro qc hqc c hc r hr
+    exact h2 qc hqc c hc r (hr.elim (fun x => Or.inl (hg r x)) Or.inr)
+  · unfold lookupsOKMock at h3
+    unfold lookupsOKMockAt
+    simp only [List.all_eq_true, List.mem_filter, List.mem_map, and_imp, forall_exists_index] at h3 ⊢
+    intro it hit i r hr hri hne
+    exact h3 it hit i r (hl r hr) hri hne
+
+/-- Non-vacuity of `mock_at_rows_weaker` and sharpness: on the D2 system with the violated
+constraint on row 0, `verify_at_rows` on NO row accepts (the blinding rows carry a zero selector)
+while `verify()`, `rowSat` and the real verifier reject. -/
+theorem mock_at_rows_unsound_witness :
+    mockOKAt d2CS d2Table [] [] = true ∧ mockOK d2CS d2Table = false ∧ rowSat d2CS d2Table = false := by
+  decide
 
 /-- **Soundness of folding the identities with `y`** (`PartiallyEvaluated::verify` computes
 `expressions.fold(0, |h, v| h·y + v)`): over any field, if the folded value vanishes for at
@@ -242,7 +289,9 @@ theorem perm_grand_product_eq (L n bf : ℕ) (hL : 0 < L) (hn : 0 < n) (β γ δ
   rw [hS] at rules
   exact perm_rules_imply_product_eq' cols.length L (n - (bf + 1)) hm hL _ _ _ _ β γ rules
 
-/-- **Soundness of the permutation argument, counting form.** `cols` = for every permutation
+/-- **Soundness of the permutation argument, counting form, over any field** (the distinctness of
+the labels is a hypothesis here; `perm_argument_sound` below discharges it for the field of the
+proof system). `cols` = for every permutation
 column its values and its σ-label values (both fixed before `β, γ` are drawn), `chunk_len = L ≥ 1`,
 `u = n − (blinding_factors + 1)` usable rows, `N = #columns · u` usable cells. Assume the
 identity labels `δ^c·ω^i` are pairwise distinct on the usable cells and the σ labels are the
@@ -256,7 +305,7 @@ identities on the whole domain for at most `(2N)²·|F| + 2N·|F|` of the `|F|²
 What remains outside this theorem: that the identities hold on the whole domain follows from the
 verifier's equation by `verifier_equation_sound`; that the evaluations are those of committed
 polynomials and that `β, γ` are random is the cryptographic part. -/
-theorem perm_argument_sound (L n bf : ℕ) (hL : 0 < L) (hn : 0 < n) (δ ω : F)
+theorem perm_argument_sound_generic (L n bf : ℕ) (hL : 0 < L) (hn : 0 < n) (δ ω : F)
     (cols : List (List F × List F)) (hm : 0 < cols.length)
     (π : Equiv.Perm (Fin cols.length × Fin (n - (bf + 1))))
     (hid : Function.Injective fun k : Fin cols.length × Fin (n - (bf + 1)) => idlOf δ ω k.1 k.2)
@@ -268,7 +317,7 @@ theorem perm_argument_sound (L n bf : ℕ) (hL : 0 < L) (hn : 0 < n) (δ ω : F)
         ∀ k : Fin cols.length × Fin (n - (bf + 1)), vOf cols (π k).1 (π k).2 = vOf cols k.1 k.2 :=
   perm_argument_sound_count L n bf hL hn δ ω cols hm π hid hσ
 
-/-- Non-vacuity of `perm_argument_sound` / `perm_grand_product_eq`: one column, `n = 2`, one
+/-- Non-vacuity of `perm_argument_sound_generic` / `perm_grand_product_eq`: one column, `n = 2`, one
 usable cell with value `5` and label `1 = δ⁰ω⁰` mapped to itself; for EVERY `β, γ` the constant
 running product satisfies every rule on both rows (so the inner hypothesis is satisfiable for
 any number of challenges), and the outer hypotheses hold. -/
@@ -486,6 +535,307 @@ example :
     ((1 : ℕ) : ZMod 17) = powN (3 : ZMod 17) 0 := by
   refine ⟨by decide, by decide, by decide, by decide⟩
 
+/-! ## the field of the proof system: labels, domain, Lagrange basis, public inputs -/
+
+section Bls
+open MidnightZK.C01.Args MidnightZK.C01.Asm Polynomial
+
+/-- The scalar field of BLS12-381 as `ZMod` of the generated modulus (prime: `C10.bls_scalar_prime`,
+Lucas certificate). -/
+abbrev Fr : Type := ZMod Consts.modulus
+/-- `F::DELTA` in `Fr`. -/
+def deltaFr : Fr := ((Consts.delta : ℕ) : Fr)
+/-- `omega` of the evaluation domain of size `2^k` in `Fr` (`EvaluationDomain::new`). -/
+def omegaFr (k : ℕ) : Fr := ((Ids.omegaOf blsFld k : ℕ) : Fr)
+
+instance : Fact (Nat.Prime blsFld.p) := Labels.modulus_prime
+
+/-- `F::DELTA` has multiplicative order exactly `t = (r − 1)/2^S` (odd): `DELTA^t = 1` and
+`DELTA^(t/q) ≠ 1` for each of the 11 prime divisors `q` of `t` (kernel-evaluated on the
+generated constant). -/
+theorem delta_orderOf : orderOf deltaFr = Labels.oddPart := Labels.delta_orderOf
+
+/-- `F::DELTA = MULTIPLICATIVE_GENERATOR^(2^S)` (the comment in `fq.rs`), on the generated constants. -/
+theorem delta_is_generator_power :
+    powMod Consts.generator (2 ^ Consts.twoAdicity) Consts.modulus = Consts.delta :=
+  Labels.delta_is_generator_power
+
+/-- For every `k ≤ S` the `omega` of `EvaluationDomain::new` (`ROOT_OF_UNITY` squared `S − k` times)
+is a primitive `2^k`-th root of unity: the `n = 2^k` rows `ω^i` of the domain are pairwise distinct
+and are exactly the roots of `X^n − 1`. -/
+theorem omega_primitive (k : ℕ) (hk : k ≤ Consts.twoAdicity) : IsPrimitiveRoot (omegaFr k) (2 ^ k) :=
+  Labels.omega_primitive k hk
+
+/-- **The permutation labels are pairwise distinct.** In the scalar field of the proof system, for
+every domain size `2^k` (`k ≤ S = 32`) and every number of permutation columns up to
+`t = (r − 1)/2^S ≈ 2^223`: `δ^c·ω^i = δ^c'·ω^i'` with `c, c' < t`, `i, i' < 2^k` forces `c = c'` and
+`i = i'` (`⟨δ⟩` has odd order `t`, `⟨ω⟩` order `2^k`, the two subgroups meet in `{1}`). This is the
+hypothesis `hid` of `perm_argument_sound_generic`. -/
+theorem perm_labels_injective (k : ℕ) (hk : k ≤ Consts.twoAdicity) {c c' i i' : ℕ}
+    (hc : c < Labels.oddPart) (hc' : c' < Labels.oddPart) (hi : i < 2 ^ k) (hi' : i' < 2 ^ k)
+    (h : idlOf deltaFr (omegaFr k) c i = idlOf deltaFr (omegaFr k) c' i') : c = c' ∧ i = i' :=
+  Labels.perm_labels_injective_bls k hk hc hc' hi hi' h
+
+/-- The same over any field: `orderOf δ = t`, `ω` a primitive `n`-th root of unity, `gcd(t, n) = 1`. -/
+theorem perm_labels_injective_of_orders {F : Type} [Field F] (δ ω : F) (t n : ℕ) (hδ : orderOf δ = t)
+    (hω : IsPrimitiveRoot ω n) (hcop : Nat.Coprime t n) {c c' i i' : ℕ} (hc : c < t) (hc' : c' < t)
+    (hi : i < n) (hi' : i' < n) (h : idlOf δ ω c i = idlOf δ ω c' i') : c = c' ∧ i = i' :=
+  Labels.labels_injective_of_orders δ ω t n hδ hω hcop hc hc' hi hi' h
+
+/-- Non-vacuity of `perm_labels_injective`: `k = 4`, equal labels. -/
+example : idlOf deltaFr (omegaFr 4) 3 5 = idlOf deltaFr (omegaFr 4) 3 5 ∧ 4 ≤ Consts.twoAdicity ∧
+    3 < Labels.oddPart ∧ 5 < 2 ^ 4 := ⟨rfl, by decide, by decide +kernel, by decide⟩
+
+private theorem labels_injective_fin (k bf m : ℕ) (hk : k ≤ Consts.twoAdicity) (hm : m ≤ Labels.oddPart) :
+    Function.Injective fun q : Fin m × Fin (2 ^ k - (bf + 1)) => idlOf deltaFr (omegaFr k) q.1 q.2 := by
+  intro a b h
+  have := perm_labels_injective k hk (lt_of_lt_of_le a.1.2 hm) (lt_of_lt_of_le b.1.2 hm)
+    (lt_of_lt_of_le a.2.2 (Nat.sub_le _ _)) (lt_of_lt_of_le b.2.2 (Nat.sub_le _ _)) h
+  exact Prod.ext (Fin.ext this.1) (Fin.ext this.2)
+
+/-- **Soundness of the permutation argument, counting form, in the field of the proof system — no
+hypothesis on the labels.** `cols` = for every permutation column its values and its σ-label
+values (both fixed before `β, γ` are drawn), `chunk_len = L ≥ 1`, domain size `n = 2^k` (`k ≤ S`),
+`u = n − (blinding_factors + 1)` usable rows, `N = #columns · u` usable cells, `δ = F::DELTA`,
+`ω` = the domain generator. The σ labels are the identity labels `δ^c·ω^i` permuted by a permutation
+`π` of the usable cells (what `permutation/keygen.rs` builds from the copy constraints). Then there
+is a set `Bad` of at most `(2N)²` values of `β` such that for every other `β`: if for MORE THAN `2N`
+values of `γ` the prover can supply running products `zs` (one per column set) making every
+permutation identity vanish on every row, then `v (π q) = v q` for every usable cell `q` — every copy
+constraint holds. The distinctness of the labels (`perm_labels_injective`) is proved from the
+generated constants `DELTA`, `ROOT_OF_UNITY`, `S`, `MODULUS`. Contrapositive: an assignment violating
+a copy constraint can satisfy the permutation identities on the whole domain for at most
+`(2N)²·|F| + 2N·|F|` of the `|F|²` challenge pairs. What remains outside this theorem: that the
+identities hold on the whole domain follows from the verifier's equation by
+`verifier_equation_sound` (+ `perm_identity_vanishes_on_domain_iff_rows`); that the evaluations are
+those of committed polynomials and that `β, γ` are random is the cryptographic part. -/
+theorem perm_argument_sound (L k bf : ℕ) (hL : 0 < L) (hk : k ≤ Consts.twoAdicity)
+    (cols : List (List Fr × List Fr)) (hm : 0 < cols.length) (hcols : cols.length ≤ Labels.oddPart)
+    (π : Equiv.Perm (Fin cols.length × Fin (2 ^ k - (bf + 1))))
+    (hσ : ∀ q : Fin cols.length × Fin (2 ^ k - (bf + 1)),
+      sigmaOf cols q.1 q.2 = idlOf deltaFr (omegaFr k) (π q).1 (π q).2) :
+    ∃ Bad : Finset Fr, Bad.card ≤ (2 * (cols.length * (2 ^ k - (bf + 1)))) ^ 2 ∧
+      ∀ β, β ∉ Bad → ∀ Γ : Finset Fr, 2 * (cols.length * (2 ^ k - (bf + 1))) < Γ.card →
+        (∀ γ ∈ Γ, ∃ zs : List (List Fr), zs.length = numSets cols.length L ∧
+          ∀ i < 2 ^ k, ∀ x ∈ permExpressionsRow L (2 ^ k) bf β γ deltaFr (omegaFr k) cols zs i, x = 0) →
+        ∀ q : Fin cols.length × Fin (2 ^ k - (bf + 1)), vOf cols (π q).1 (π q).2 = vOf cols q.1 q.2 :=
+  perm_argument_sound_count L (2 ^ k) bf hL (Nat.pos_of_ne_zero (by positivity)) deltaFr (omegaFr k) cols hm π
+    (labels_injective_fin k bf cols.length hk hcols) hσ
+
+/-- Non-vacuity of `perm_argument_sound`: one column, `k = 1` (`n = 2`), `bf = 0`: one usable cell
+with value `5` and label `1 = δ⁰ω⁰` mapped to itself; the outer hypotheses hold, and for EVERY
+`β, γ` the constant running product satisfies every rule on both rows. -/
+example : (∀ β γ : Fr, ∃ zs : List (List Fr), zs.length = numSets 1 1 ∧
+      ∀ i < 2 ^ 1, ∀ x ∈ permExpressionsRow 1 (2 ^ 1) 0 β γ deltaFr (omegaFr 1) [([5, 0], [1, 0])] zs i, x = 0) ∧
+    (1 ≤ Consts.twoAdicity ∧ [(([5, 0], [1, 0]) : List Fr × List Fr)].length ≤ Labels.oddPart) ∧
+    ∀ q : Fin 1 × Fin (2 ^ 1 - (0 + 1)), sigmaOf [(([5, 0], [1, 0]) : List Fr × List Fr)] q.1 q.2 =
+      idlOf deltaFr (omegaFr 1) ((Equiv.refl _ : Equiv.Perm _) q).1 ((Equiv.refl _ : Equiv.Perm _) q).2 := by
+  refine ⟨fun β γ => ⟨[[1, 1]], by decide, ?_⟩, ⟨by decide, by decide +kernel⟩, ?_⟩
+  · intro i hi
+    have : i = 0 ∨ i = 1 := by omega
+    rcases this with rfl | rfl <;> simp [permExpressionsRow, permLeftRight, chunks, powN]
+  · rintro ⟨⟨a, ha⟩, ⟨b, hb⟩⟩
+    have ha0 : a = 0 := by omega
+    have hb0 : b = 0 := by omega
+    subst ha0 hb0
+    simp [sigmaOf, idlOf]
+
+/-! ### identity polynomials on the domain ⇔ row rules (the indicator reading of `l_0`, `l_last`, `l_blind`) -/
+
+variable {F : Type} [Field F] {n : ℕ} {ω : F}
+
+/-- **Permutation class: the identity polynomials vanish on the whole domain iff the row rules hold on
+every row.** `Dom.permIdPolys` = the polynomials of `permutation.rs: expressions` built from the column
+polynomials of degree `< n` (Lagrange form of the committed vectors: values, σ labels, running
+products), their rotations `z(ωX)`, `z(ω^{−(bf+1)}X)`, the label polynomial `δ^c·X` and the
+Lagrange-basis polynomials `l_0`, `l_last`, `l_blind` (`indPoly`: `1` on the rows `0` / `u` / `> u`,
+`0` on the other rows — proved from the interpolation property, not assumed). At the node `ω^i` they
+evaluate to `permExpressionsRow … i`, the object of `perm_argument_sound`. -/
+theorem perm_identity_vanishes_on_domain_iff_rows (hω : IsPrimitiveRoot ω n) (L bf : ℕ) (hbf : bf + 1 ≤ n)
+    (β γ δ : F) (cols : List (List F × List F)) (zs : List (List F)) :
+    (∀ p ∈ Dom.permIdPolys ω L n bf β γ δ cols zs, ∀ i, i < n → p.eval (ω ^ i) = 0) ↔
+      ∀ i, i < n → ∀ x ∈ permExpressionsRow L n bf β γ δ ω cols zs i, x = 0 :=
+  Dom.perm_vanishes_iff_rows hω L bf hbf β γ δ cols zs
+
+/-- **Lookup class**: the five identity polynomials of one lookup (`C01.Asm.lookupIdPolys`: `l_0(1 − z)`,
+`l_last(z² − z)`, the product rule, `l_0(a' − s')`, `(a' − s')(a' − a'(ω⁻¹X))·active`) vanish on the
+whole domain iff `lookupExpressionsRow` is zero on every row. -/
+theorem lookup_identity_vanishes_on_domain_iff_rows (hω : IsPrimitiveRoot ω n) (hn : 0 < n) (bf : ℕ)
+    (β γ : F) (A S A' S' z : List F) :
+    (∀ p ∈ lookupIdPolys ω n bf β γ A S A' S' z, ∀ i, i < n → p.eval (ω ^ i) = 0) ↔
+      ∀ i, i < n → ∀ x ∈ lookupExpressionsRow n bf β γ A S A' S' z i, x = 0 :=
+  Dom.lookup_vanishes_iff_rows hω hn bf β γ A S A' S' z
+
+/-- **Trash class**: the identity polynomial `compressed − (1 − q)·trash` vanishes on the whole domain
+iff `trashExpressionRow` is zero on every row. -/
+theorem trash_identity_vanishes_on_domain_iff_rows (hω : IsPrimitiveRoot ω n) (c : F) (q : List F)
+    (exprs : List (List F)) (trash : List F) :
+    (∀ i, i < n → (trashIdPoly ω n c q exprs trash).eval (ω ^ i) = 0) ↔
+      ∀ i, i < n → trashExpressionRow c q exprs trash i = 0 :=
+  Dom.trash_vanishes_iff_rows hω c q exprs trash
+
+/-- **Gate class: the gate polynomials vanish on the whole domain iff every gate holds on every
+row.** `GatePoly.exprPoly` = the gate expression over the rotated column polynomials (the polynomial
+whose value at `x` `evaluate_identities` computes from `fixed_evals`, `advice_evals`,
+`instance_evals`); over any prime field, for every constraint system and assignment table whose
+queried cells hold canonical field elements: it vanishes at every `ω^i` iff `MockProver`'s row
+evaluation (`Expr.eval`, `gatesOK`) is zero on every row `i < n`. With `gate_identity_rows` (the
+identity model on row evaluation vectors) this closes the gate class at polynomial level. -/
+theorem gate_identity_vanishes_on_domain_iff_rows (t : Table) [Fact t.p.Prime] {w : ZMod t.p}
+    (hw : IsPrimitiveRoot w t.n) (hn : 0 < t.n) (cs : Ids.VCS)
+    (h : ∀ g ∈ cs.gates.flatten, ∀ i < t.n, Ids.LeavesOK cs t i g)
+    (hred : ∀ g ∈ cs.gates.flatten, ∀ i < t.n, Ids.evalQ (Ids.rowEnv cs t i) g < t.p) :
+    (∀ g ∈ cs.gates.flatten, ∀ i < t.n, (GatePoly.exprPoly t w g).eval (w ^ i) = 0) ↔
+      ∀ g ∈ cs.gates.flatten, ∀ i < t.n, isZero (g.eval t i) = true :=
+  GatePoly.gate_vanishes_iff_rows t hw hn cs h hred
+
+/-- Non-vacuity of `gate_identity_vanishes_on_domain_iff_rows`: the 2-row table `gateTable` over
+`F_17` with the gate `a0·a1 − a2` (`gateCS`): `17` is prime, `16 = −1` is a primitive 2nd root of
+unity, every leaf is a registered query with a field-element cell and every row value is `< 17`. -/
+example : Nat.Prime gateTable.p ∧ IsPrimitiveRoot (16 : ZMod 17) gateTable.n ∧
+    (∀ g ∈ gateCS.gates.flatten, ∀ i < gateTable.n, Ids.LeavesOK gateCS gateTable i g) ∧
+    (∀ g ∈ gateCS.gates.flatten, ∀ i < gateTable.n, Ids.evalQ (Ids.rowEnv gateCS gateTable i) g < gateTable.p) := by
+  have : Fact (Nat.Prime 17) := ⟨by norm_num⟩
+  refine ⟨by norm_num [gateTable], ?_, ?_, ?_⟩
+  · have h16 : (16 : ZMod 17) = -1 := by rfl
+    rw [h16]; exact IsPrimitiveRoot.neg_one 17 (by decide)
+  · intro g hg i hi
+    simp only [gateCS, List.flatten_cons, List.flatten_nil, List.append_nil, List.mem_singleton] at hg
+    subst hg
+    have : i = 0 ∨ i = 1 := by simp only [gateTable] at hi; omega
+    rcases this with rfl | rfl <;> simp [Ids.LeavesOK, cell, gateCS, gateTable, coverCS]
+  · intro g hg i hi
+    simp only [gateCS, List.flatten_cons, List.flatten_nil, List.append_nil, List.mem_singleton] at hg
+    subst hg
+    have : i = 0 ∨ i = 1 := by simp only [gateTable] at hi; omega
+    rcases this with rfl | rfl <;> decide
+
+/-- Non-vacuity of the three equivalences: `ω = −1` is a primitive 2nd root of unity of `ℚ`, `bf = 0`. -/
+example : IsPrimitiveRoot (-1 : ℚ) 2 ∧ 0 + 1 ≤ 2 := ⟨IsPrimitiveRoot.neg_one 0 (by decide), by decide⟩
+
+/-- **Permutation soundness stated on the identity POLYNOMIALS** (the chain
+`verifier_equation_sound` → this → copy constraints): in the field of the proof system, if for all
+`β` outside a set of at most `(2N)²` values and more than `2N` values of `γ` the prover can supply
+running products whose permutation identity polynomials vanish at every point of the domain, then
+every copy constraint holds. -/
+theorem perm_argument_sound_polys (L k bf : ℕ) (hL : 0 < L) (hk : k ≤ Consts.twoAdicity) (hbf : bf + 1 ≤ 2 ^ k)
+    (cols : List (List Fr × List Fr)) (hm : 0 < cols.length) (hcols : cols.length ≤ Labels.oddPart)
+    (π : Equiv.Perm (Fin cols.length × Fin (2 ^ k - (bf + 1))))
+    (hσ : ∀ q : Fin cols.length × Fin (2 ^ k - (bf + 1)),
+      sigmaOf cols q.1 q.2 = idlOf deltaFr (omegaFr k) (π q).1 (π q).2) :
+    ∃ Bad : Finset Fr, Bad.card ≤ (2 * (cols.length * (2 ^ k - (bf + 1)))) ^ 2 ∧
+      ∀ β, β ∉ Bad → ∀ Γ : Finset Fr, 2 * (cols.length * (2 ^ k - (bf + 1))) < Γ.card →
+        (∀ γ ∈ Γ, ∃ zs : List (List Fr), zs.length = numSets cols.length L ∧
+          ∀ p ∈ Dom.permIdPolys (omegaFr k) L (2 ^ k) bf β γ deltaFr cols zs,
+            ∀ w : Fr, w ^ (2 ^ k) = 1 → p.eval w = 0) →
+        ∀ q : Fin cols.length × Fin (2 ^ k - (bf + 1)), vOf cols (π q).1 (π q).2 = vOf cols q.1 q.2 := by
+  obtain ⟨Bad, hBad, h⟩ := perm_argument_sound L k bf hL hk cols hm hcols π hσ
+  refine ⟨Bad, hBad, fun β hβ Γ hΓ hz => h β hβ Γ hΓ fun γ hγ => ?_⟩
+  obtain ⟨zs, hzs, hp⟩ := hz γ hγ
+  refine ⟨zs, hzs, ?_⟩
+  have hω := omega_primitive k hk
+  exact (perm_identity_vanishes_on_domain_iff_rows hω L bf hbf β γ deltaFr cols zs).1
+    fun p hpm i _ => hp p hpm _ (MidnightZK.C01.Dom.node_pow hω i)
+
+/-! ### what the verifier computes off the domain -/
+
+/-- **`l_0(x)`, `l_last(x)`, `l_blind(x)` of the identity model are the Lagrange-basis polynomials
+evaluated at `x`.** For every `k ≤ S`, every number of blinding factors with `bf + 1 ≤ 2^k` and every
+`x` off the domain: the naturals `Ids.lagrange blsFld cs x xⁿ` (mirror of `evaluate_identities` /
+`l_i_range`, validated value by value against the hooked identity log of the real verifier: the
+identity values depend on them) are, in `Fr`, the values at `x` of the polynomials of degree `< n`
+that are the row indicators `[i = 0]`, `[i = u]`, `[u < i]` on the domain. So the identity values
+the verifier folds are evaluations at `x` of the identity polynomials of
+`perm_/lookup_/trash_identity_vanishes_on_domain_iff_rows`. -/
+theorem lagrange_evals_are_basis_polys (cs : Ids.VCS) (hk : cs.k ≤ Consts.twoAdicity)
+    (hbf : cs.blinding + 1 ≤ 2 ^ cs.k) (x : ℕ) (hx : (x : Fr) ^ (2 ^ cs.k) ≠ 1) :
+    let Lg := Ids.lagrange blsFld cs x (Ids.xnOf blsFld.p cs.k x)
+    ((Lg.l0 : ℕ) : Fr) = (indPoly (omegaFr cs.k) (2 ^ cs.k) (fun i => i = 0)).eval (x : Fr) ∧
+    ((Lg.lLast : ℕ) : Fr) =
+      (indPoly (omegaFr cs.k) (2 ^ cs.k) (fun i => i = 2 ^ cs.k - (cs.blinding + 1))).eval (x : Fr) ∧
+    ((Lg.lBlind : ℕ) : Fr) =
+      (indPoly (omegaFr cs.k) (2 ^ cs.k) (fun i => 2 ^ cs.k - (cs.blinding + 1) < i)).eval (x : Fr) :=
+  Lag.lagrange_is_basis_eval blsFld (by decide +kernel) cs (omega_primitive cs.k hk) hbf x hx
+
+/-- Non-vacuity of `lagrange_evals_are_basis_polys`: `k = 3`, `bf = 3`, `x = 5` is off the domain. -/
+example : (3 : ℕ) ≤ Consts.twoAdicity ∧ 3 + 1 ≤ 2 ^ 3 ∧ ((5 : ℕ) : Fr) ^ (2 ^ 3) ≠ 1 := by
+  refine ⟨by decide, by decide, ?_⟩
+  rw [← Nat.cast_pow]
+  exact MidnightZK.C10.zmod_ne_one Consts.modulus (5 ^ 2 ^ 3) (by decide +kernel) (by decide +kernel) (by decide)
+
+/-- **Public inputs enter through the verifier's own evaluation of the instance polynomial.** For
+every constraint system, `k ≤ S`, `x` off the domain and every instance query `qi` on a plain
+(non-committed) column whose public-input vector has at most `maxLen` and at most `n` entries: the
+value the identity model puts into `instance_evals[qi]` (mirror of the `compute_inner_product(instances,
+l_i_s[offset..])` block of `verify_algebraic_constraints`) is, in `Fr`, the value at `ω^rot·x` of the
+column polynomial of the public inputs the verifier was GIVEN (`colPoly`: interpolates the values, zero
+beyond the vector's length). Nothing the prover sends enters this value. -/
+theorem instance_eval_is_column_poly (cs : Ids.VCS) (hk : cs.k ≤ Consts.twoAdicity)
+    (nCommitted x maxLen : ℕ) (plain : List (List ℕ)) (cev : ℕ → ℕ)
+    (hx : (x : Fr) ^ (2 ^ cs.k) ≠ 1) (qi : ℕ) (hqi : qi < cs.instanceQueries.length)
+    (hplain : nCommitted ≤ (cs.instanceQueries[qi]).1)
+    (hlen : (plain.getD ((cs.instanceQueries[qi]).1 - nCommitted) []).length ≤ maxLen)
+    (hln : (plain.getD ((cs.instanceQueries[qi]).1 - nCommitted) []).length ≤ 2 ^ cs.k) :
+    (((Ids.instanceEvals blsFld cs nCommitted x (Ids.xnOf blsFld.p cs.k x) maxLen plain cev).getD qi 0 : ℕ) : Fr) =
+      eval ((omegaFr cs.k) ^ (cs.instanceQueries[qi]).2 * (x : Fr))
+        (colPoly (omegaFr cs.k) (2 ^ cs.k)
+          ((plain.getD ((cs.instanceQueries[qi]).1 - nCommitted) []).map fun v => ((v : ℕ) : Fr))) :=
+  Lag.instance_eval_is_poly_eval blsFld (by decide +kernel) cs (omega_primitive cs.k hk) nCommitted x maxLen plain
+    cev hx qi hqi hplain hlen hln
+
+/-- **A different public input is rejected at the identity level.** Two public-input columns `a`, `b`
+that differ on some row `i₀ < n` have instance polynomials whose values at `ω^rot·x` (what
+`instance_eval_is_column_poly` shows the verifier to compute) coincide for FEWER THAN `n` values of
+`x`. Hence a proof whose committed advice satisfies the copy constraint `cell = instance(i₀)` and a gate
+or permutation identity involving the instance column for the public input `a` — identities that vanish
+on the domain for `a` — yields, for the public input `b`, an identity value at `x` that differs from the
+one the quotient was built for, for all but fewer than `n` challenges `x`; by `perm_argument_sound` with
+the instance column among `cols` the permutation identities can vanish on the domain for `b` only if the
+advice cell equals `b[i₀]`. -/
+theorem public_input_changes_instance_eval (hω : IsPrimitiveRoot ω n) (hn : 0 < n) (a b : List F) (i₀ : ℕ)
+    (hi₀ : i₀ < n) (hne : a.getD i₀ 0 ≠ b.getD i₀ 0) (rot : ℤ) (Xs : Finset F)
+    (h : ∀ x ∈ Xs, eval (ω ^ rot * x) (colPoly ω n a) = eval (ω ^ rot * x) (colPoly ω n b)) :
+    Xs.card < n :=
+  PI.instance_eval_differs hω hn a b i₀ hi₀ hne rot Xs h
+
+/-- Non-vacuity of `public_input_changes_instance_eval`: `n = 2`, `ω = −1` over `ℚ`, inputs `[1, 2]` and
+`[1, 3]` differ on row 1; the empty set of coincidence points satisfies the hypothesis. -/
+example : IsPrimitiveRoot (-1 : ℚ) 2 ∧ ([1, 2] : List ℚ).getD 1 0 ≠ ([1, 3] : List ℚ).getD 1 0 :=
+  ⟨IsPrimitiveRoot.neg_one 0 (by decide), by norm_num⟩
+
+end Bls
+
+/-! ## `degree()` and `blinding_factors()` (mirrors compared with the running code on every member) -/
+
+private theorem foldl_max_ge (l : List Nat) (a : Nat) : a ≤ l.foldl max a := by
+  induction l generalizing a with
+  | nil => exact Nat.le_refl _
+  | cons x t ih => exact Nat.le_trans (Nat.le_max_left a x) (ih (max a x))
+
+/-- **`ConstraintSystem::degree()` is at least 3** for every constraint system (the permutation
+argument's `required_degree()`), so `chunk_len = degree − 2 ≥ 1`: the hypothesis `3 ≤ cs.degree` of
+`ids_cover` holds whenever `degree` is what the mirrored function computes (compared with
+`cs.degree()` of the running code on every family member, `csparams` lines). -/
+theorem csDegree_ge_three (cs : Ids.VCS) : 3 ≤ Ids.csDegree cs := by
+  unfold Ids.csDegree
+  simp only [List.filterMap_cons, id]
+  exact Nat.le_trans (Nat.le_max_right 0 3) (foldl_max_ge _ _)
+
+/-- **`blinding_factors()` is at least 5 and grows with the trash arguments**: at least 3 evaluation
+points, one per trash column, one for multiopen, one spare — for every constraint system. Hence at
+least 6 unusable rows (`l_last` row + blinding rows), and `l_0`, `l_last` refer to different rows as
+soon as `n > blinding_factors + 1`. -/
+theorem blindingFactors_ge (nAdvice : Nat) (cs : Ids.VCS) :
+    5 + cs.trash.length ≤ Ids.blindingFactors nAdvice cs := by
+  unfold Ids.blindingFactors
+  simp only []
+  have := Nat.le_max_left 3 ((Ids.maxOpt ((List.range nAdvice).map (Ids.numAdviceQueries cs))).getD 1)
+  omega
+
+/-- Concrete reading on `coverCS` (2 advice columns with one query each, one trash argument, a
+lookup): degree 4 (lookup), `3 + 1 + 2 = 6` blinding factors, 2 column sets. -/
+example : Ids.csDegree coverCS = 4 ∧ Ids.blindingFactors 2 coverCS = 6 ∧ Ids.csNumSets coverCS = 2 := by decide
+
 /-! ## the field constants the identity model reads (regenerated from `fq.rs` on every run) -/
 
 /-- `ROOT_OF_UNITY` is a primitive `2^S`-th root of unity of the scalar field: its `2^(S−1)`-th
@@ -496,9 +846,8 @@ theorem root_of_unity_primitive :
   decide +kernel
 
 /-- `DELTA` has odd order `t = (r − 1)/2^S`: `DELTA^t = 1`, `2^S·t = r − 1`, `t` odd, `DELTA ≠ 1`.
-These are the facts from which the distinctness of the labels `δ^c·ω^i` (hypothesis `hid` of
-`perm_argument_sound`) follows in the real field (orders `2^k` and odd are coprime); that last
-group-theoretic step is not mechanised here. -/
+(`delta_orderOf` strengthens this to: the order is exactly `t`; `perm_labels_injective` derives the
+distinctness of the labels `δ^c·ω^i`.) -/
 theorem delta_order :
     powMod Consts.delta ((Consts.modulus - 1) / 2 ^ Consts.twoAdicity) Consts.modulus = 1 ∧
     2 ^ Consts.twoAdicity * ((Consts.modulus - 1) / 2 ^ Consts.twoAdicity) = Consts.modulus - 1 ∧
